@@ -55,6 +55,24 @@ HARNESS(harness_countdown) {
   CHECK(h_count() == NA + 1, "every call is counted");
   WITNESS("end");
 }
+HARNESS(harness_countdown_mixed) {
+  /* the countdown counts EVERY tracked C allocation: malloc, calloc and strdup take turns (constant pattern) */
+  h_init();
+  IN_I32(c); IN_U32(back_at);
+  static uint8_t str[3] = { 'a', 'b', 0 };
+  h_countdown((uint32_t)c);
+  uint32_t restored = 0;
+  for (uint32_t i = 1; i <= 4; i++) {
+    if (i == (back_at & 7)) { h_not_oom(); restored = 1; }
+    uint32_t got = (i == 1 || i == 4) ? h_strdup(str) : (i == 2 ? h_calloc(2, 4) : h_malloc(8));
+    OBSERVE(got);
+    uint32_t fail = !restored && c >= 0 && (int64_t)i >= (int64_t)c;
+    CHECK((got == 0) == (fail != 0), "countdown(c): tracked allocation number i (strdup, calloc, malloc, strdup) fails iff c >= 0 and i >= c, until set_not_out_of_memory");
+  }
+  CHECK(h_failures() == 0 && leak_reports == 0, "nothing is reported as a failure or leak");
+  CHECK(h_count() == 4, "every call is counted");
+  WITNESS("end");
+}
 HARNESS(harness_oom_switch) {
   h_init();
   IN_ARR_U32(act, NA);
